@@ -38,7 +38,7 @@ theorem C02_removeConflict_removes (n : Nat) (s s' : Store) (rec : Tx) (h : remo
 unspent index and the balance counter are untouched when unconfirmed conflicts and their descendants disappear -/
 theorem C02_removeConflict_mined_untouched (n : Nat) (s s' : Store) (rec : Tx) (h : removeConflict n s rec = .ok s') :
     s'.blocks = s.blocks ∧ s'.txrecs = s.txrecs ∧ s'.credits = s.credits ∧ s'.unspent = s.unspent ∧
-      s'.minedBalance = s.minedBalance :=
+      s'.minedBalance = s.minedBalance ∧ s'.debits = s.debits :=
   sameMined_removeConflict n s rec s' h
 
 /-- the unconfirmed buckets only shrink -/
@@ -186,6 +186,33 @@ theorem C02_rollback_blocks (s s' : Store) (height : Int) (h : rollback s height
       simp at this
       omega
     simp [this]
+
+/-- `rollback`, coinbase branch: EVERY output of the detached coinbase is remembered — credited or not — so that its
+unconfirmed spenders are removed afterwards (fixed in /repo 2c7f685; before, only credited outputs were). -/
+theorem C02_rollback_remembers_every_coinbase_output (rec : Tx) (blk : Block) :
+    ∀ (outs : List Int) (n : Nat) (r : RB),
+      ((withIdx outs n).foldl (rbCoinbaseOut rec blk) r).cb =
+        r.cb ++ (List.range outs.length).map (fun i => (⟨rec.hash, n + i⟩ : OutPoint)) := by
+  intro outs
+  induction outs with
+  | nil => intro n r; simp [withIdx]
+  | cons v t ih =>
+    intro n r
+    have hstep : (rbCoinbaseOut rec blk r (n, v)).cb = r.cb ++ [⟨rec.hash, n⟩] := by
+      unfold rbCoinbaseOut
+      dsimp only
+      split
+      · rfl
+      · split <;> rfl
+    simp only [withIdx, List.foldl_cons]
+    rw [ih (n + 1), hstep, List.length_cons, List.range_succ_eq_map, List.map_cons, List.map_map]
+    simp only [List.append_assoc, List.singleton_append, Nat.add_zero]
+    congr 2
+    apply List.map_congr_left
+    intro i _
+    simp only [Function.comp]
+    congr 1
+    omega
 
 /-! ### the specification says what C02 says -/
 open Ledger in
